@@ -25,6 +25,7 @@ from sc3.synth.ugens import oscillators as ocl, noise as nse, line as lne, pan a
     filter as flr, trig as trg, foscillators as fos
 import operator
 from sc3.base import utils as utl
+import sc3.base.builtins as bi_
 
 CLASSES = {'SinOsc': ocl.SinOsc, 'Saw': fos.Saw, 'LFNoise0': nse.LFNoise0, 'Line': lne.Line,
            'Impulse': ocl.Impulse, 'Pan2': pan_.Pan2, 'LFSaw': ocl.LFSaw, 'XLine': lne.XLine,
@@ -168,10 +169,28 @@ def call(case, pre, bv=None):
         kwargs = {k: bv(a) for k, a in sorted(case.get('kwargs', {}).items())}
         return getattr(cls, case['rate'])(*args, **kwargs)
     if kind in ('clbinop', 'clrbinop', 'ugenbinop', 'ugenrbinop'):
-        a, b = bv(case['a']), bv(case['b'])
-        return OPS[case['op']](a, b)
+        a = bv(case['a'])
+        rest = [bv(case['b'])] if case.get('b') is not None else []      # operand omitted: the method's default
+        if case.get('named'):
+            # any other binary operator: the method a.<name>(b), the builtins function bi.<name>(a, b)
+            # (the only form when the left operand is a plain number / list), or Python's round(a, b)
+            name, form = case['named'], case.get('form', 'function')
+            if form == 'builtin':
+                return round(a, *rest)
+            if form == 'method' and hasattr(a, name):
+                return getattr(a, name)(*rest)
+            return getattr(bi_, name)(a, *rest)
+        return OPS[case['op']](a, rest[0])
     if kind == 'clunop':
-        return -bv(case['a'])
+        a = bv(case['a'])
+        if case.get('named'):
+            name, form = case['named'], case.get('form', 'function')
+            if form == 'builtin':
+                return abs(a)
+            if form == 'method' and hasattr(a, name):
+                return getattr(a, name)()
+            return getattr(bi_, name)(a)
+        return -a
     if kind == 'method':
         recv = bv(case['self'])
         return getattr(recv, case['meth'])(*[bv(a) for a in case['args']])
